@@ -1094,6 +1094,17 @@ impl<'a> Fx<'a> {
             Expr::Try(_) | Expr::MethodCall(_) if self.display.is_some() && self.try_for_each_write(e, ind).is_some() => {
                 self.try_for_each_write(e, ind).unwrap()
             }
+            // `f.write_str(s)?;` / `f.write_char(c)?;`
+            Expr::Try(_) | Expr::MethodCall(_) if self.display.is_some() && write_str_arg(e, self.display.as_deref().unwrap()).is_some() => {
+                let (arg, is_char) = write_str_arg(e, self.display.as_deref().unwrap()).unwrap();
+                if expr_needs_do(arg) {
+                    return Err("write_str of a value with control flow".into());
+                }
+                let a = self.expr_atom(arg)?;
+                let f = self.display.clone().unwrap();
+                let a = if is_char { format!("[{}]", a) } else { a };
+                Ok(vec![Line { ind, text: format!("{} := {} ++ {}", f, f, a) }])
+            }
             Expr::Return(r) if self.mode != Mode::Id => {
                 // `return Ok(v)` / `return Err(e)`
                 let x = r.expr.as_ref().ok_or("`return` without a value in a fallible function")?;
@@ -1205,7 +1216,11 @@ impl<'a> Fx<'a> {
                     return Ok(vec![Line { ind, text: format!("{} := Rust.unreachable", f) }]);
                 }
                 Expr::Call(c) if c.func.to_token_stream().to_string() == "Ok" => return Ok(vec![Line { ind, text: "pure ()".into() }]),
-                Expr::Call(_) | Expr::Try(_) | Expr::MethodCall(_) if self.formatter_helper_call(e).is_some() || self.try_for_each_write(e, ind).is_some() => {
+                Expr::Call(_) | Expr::Try(_) | Expr::MethodCall(_)
+                    if self.formatter_helper_call(e).is_some()
+                        || self.try_for_each_write(e, ind).is_some()
+                        || write_str_arg(e, self.display.as_deref().unwrap_or("")).is_some() =>
+                {
                     return self.expr_stmt(e, ind);
                 }
                 Expr::If(i) => return self.if_stmt(i, ind, tail),
@@ -2160,6 +2175,22 @@ fn as_ptr_operand(e: &Expr) -> Option<&Expr> {
                 if m.method == "as_ptr" && m.args.is_empty() {
                     return Some(&*m.receiver);
                 }
+            }
+        }
+    }
+    None
+}
+
+/// `f.write_str(x)` / `f.write_char(c)` (optionally with `?`) on the formatter `f`: the argument
+fn write_str_arg<'a>(e: &'a Expr, fvar: &str) -> Option<(&'a Expr, bool)> {
+    let e = match e {
+        Expr::Try(t) => &*t.expr,
+        e => e,
+    };
+    if let Expr::MethodCall(m) = e {
+        if (m.method == "write_str" || m.method == "write_char") && m.args.len() == 1 {
+            if ident_name(&m.receiver.to_token_stream().to_string()) == fvar {
+                return Some((&m.args[0], m.method == "write_char"));
             }
         }
     }
